@@ -187,6 +187,7 @@ class State:
     env: dict
     dnf: tuple = ((),)
     dead: str | None = None  # return | raise | break | continue
+    seq: int = -1  # number of effects recorded when this snapshot was taken (loop-end snapshots)
 
     @property
     def guards(self):
@@ -315,12 +316,16 @@ class SymEval:
             return self.try_(s, st)
         if isinstance(s, ast.Continue):
             if self._loops:
-                self._loop_ends.setdefault(self._loops[-1], []).append(("continue", st.copy()))
+                snap = st.copy()
+                snap.seq = len(self.effects)
+                self._loop_ends.setdefault(self._loops[-1], []).append(("continue", snap))
             st.dead = "continue"
             return st
         if isinstance(s, ast.Break):
             if self._loops:
-                self._loop_ends.setdefault(self._loops[-1], []).append(("break", st.copy()))
+                snap = st.copy()
+                snap.seq = len(self.effects)
+                self._loop_ends.setdefault(self._loops[-1], []).append(("break", snap))
             st.dead = "break"
             return st
         if isinstance(s, (ast.Pass, ast.Global, ast.Nonlocal, ast.Import, ast.ImportFrom)):
@@ -504,6 +509,8 @@ class SymEval:
         info["body_end"] = body_st.env
         info["body_dead"] = body_st.dead
         info["body_end_dnf"] = body_st.dnf
+        body_st.seq = len(self.effects)
+        info["body_end_state"] = body_st
         info["ends"] = self._loop_ends.get(lid, [])
         self._loops.pop()
         out = State(dict(st.env), pre.dnf, None)
